@@ -118,7 +118,7 @@ def study(part, o, rows, kind, ftype, mf, obj, clause_prefix, cond, det):
             if err[0] > floor:
                 nontrivial = True
             order = fitted_order(EPS, err, floor)
-            bound = 4.0 * err[0] * (EPS[-1] / EPS[0]) ** 1.8 + floor
+            bound = 4.0 * max(err[i] * (EPS[-1] / EPS[i]) ** 1.8 for i in range(3)) + floor   # from the worst of the three largest eps
             bad = (order is not None and order < 1.8) or err[-1] > bound
             part.count('cmp:' + clause_prefix + kind)
             if bad:
@@ -134,7 +134,7 @@ def study(part, o, rows, kind, ftype, mf, obj, clause_prefix, cond, det):
             floor = 1e-9 * sc
             if np.all(np.isfinite(ZF)) and abs(zf_ref) < 1e5:
                 order = fitted_order(EPS, err, floor)
-                bound = 4.0 * err[0] * (EPS[-1] / EPS[0]) ** 1.8 + floor
+                bound = 4.0 * max(err[i] * (EPS[-1] / EPS[i]) ** 1.8 for i in range(3)) + floor   # from the worst of the three largest eps
                 part.count('cmp:' + clause_prefix + 'focus')
                 if (order is not None and order < 1.8) or err[-1] > bound:
                     part.violation(PID, f'{clause_prefix}axial-focus-tends-to-paraxial-focus', 'Optic.trace_generic', cond,
